@@ -21,7 +21,7 @@ ASSUMPTIONS = ["pre-fixed nodes are not generated here (covered by C03/C06/C08)"
 
 @st.composite
 def case_strategy(draw, tier):
-    spec = draw(S.model_spec(depth=3 if tier == "quick" else 4, profile=draw(st.sampled_from(["small", "small", "small", "large"]))))
+    spec = draw(S.model_spec(depth=3 if tier == "quick" else 4, profile=draw(st.sampled_from(["small", "small", "small", "large", "huge"]))))
     lv = oracle.spec_leaves(spec)
     ids = sorted(lv)
     dl = []      # per leaf: [mode, a, b]; mode 0 = not in D, 1 int, 2 (v,v), 3 sub-range tuple, 4 Bounds sub-range, 5 numpy int
@@ -31,7 +31,7 @@ def case_strategy(draw, tier):
     chosen = set(draw(st.lists(st.integers(0, max(0, len(ids) - 1)), min_size=min(k, len(ids)), max_size=min(k, len(ids)), unique=True))) if ids else set()
     for j, i in enumerate(ids):
         lo, hi = lv[i]
-        mode = draw(st.sampled_from([1, 1, 2, 3, 4, 5])) if j in chosen else 0
+        mode = draw(st.sampled_from([1, 1, 2, 3, 4, 5, 6, 7])) if j in chosen else 0
         # values biased to the ends and the mid-point of the declared range (symmetric narrowings keep lower+upper)
         a = draw(st.one_of(st.sampled_from([lo, hi, (lo + hi) // 2, (lo + hi + 1) // 2]), st.integers(lo, hi)))
         b = draw(st.one_of(st.just(min(hi, max(a, lo + hi - a))), st.integers(a, min(hi, a + 4))))
@@ -82,7 +82,10 @@ def _val(mode, a, b):
         return (a, b)
     if mode == 4:
         return puan.Bounds(a, b)
-    return np.int64(a)
+    if mode == 5:
+        return np.int64(a)
+    # narrow numpy SCALARS only; numpy integers inside tuples / Bounds are outside the documented value forms
+    return common.narrow(a, unsigned_ok=(mode == 6))
 
 
 def _rng(mode, a, b):
